@@ -86,6 +86,15 @@ func newReportSim(config SimulatorConfig) (*reportSim, error) {
 		legacy:     config.Mode == ICWS88,
 	}
 
+	// a limit larger than the core cannot reach any further than the core
+	// itself; folding with it would wrap around the uint64 range instead
+	if sim.readLimit > sim.m {
+		sim.readLimit = sim.m
+	}
+	if sim.writeLimit > sim.m {
+		sim.writeLimit = sim.m
+	}
+
 	sim.mem = make([]Instruction, sim.m)
 
 	return sim, nil
